@@ -15,7 +15,7 @@ CHECKS = {
     'C01': ('E1', 'bounded-exhaustive enumeration of database shapes x configuration grid vs posting-list reference',
             'Every scheme x every point of the supported configuration grid (incl. misaligned-width, wide-keyword and capacity-upper-bound points) x every integer partition of every N<=8 (12 thorough) in both keyword '
             'orders, plus boundary profiles around every block/level/2^k/index-width/case-split length: KeyGen, EDBSetup and a search of EVERY '
-            'stored keyword run on the real code; result compared with DB[w]; one scheme object per configuration reused across the cases of a unit and a per-scheme sweep over all configuration points in one process. Exhaustive over shapes inside the bounds.',
+            'stored keyword run on the real code; result compared with DB[w]; one scheme object per configuration reused across the cases of a unit and a per-scheme sweep over all configuration points in one process; the database is altered and encrypted again under the same key by the same object and both indexes are searched. Exhaustive over shapes inside the bounds.',
             'One DRBG value assignment per shape and seed; shapes above the bounds are not covered.', 'DESIGN.md 4/C01'),
     'C02': ('E1', 'bounded-exhaustive enumeration of databases x adversarially close absent keywords',
             'All partitions of N<=6 (9) per scheme/configuration point x the absent-keyword family (prefix, suffix, +byte, +NUL, bit flips, '
@@ -23,11 +23,11 @@ CHECKS = {
             'Absent keywords are derived from at most 3 stored keywords per database; value-level collisions assumed negligible.', 'DESIGN.md 4/C02'),
     'C03': ('E1', 'bounded-exhaustive enumeration through three separate scheme instances joined only by wire bytes',
             'Per scheme/configuration point/partition: client, JSON-rebuilt server and JSON-rebuilt reloaded client exchange only serialized '
-            'key, EDB, token and result; content and round-trip equality checked for every keyword, present and absent; 10 patterned keys per point; all configuration points swept in one process in both directions.',
+            'key, EDB, token and result; content and round-trip equality checked for every keyword, present and absent; 10 patterned keys per point; all configuration points swept in one process in both directions; the three parties have different object histories (long-lived vs brand-new).',
             'pickle is trusted as a container format; N<=5 (8).', 'DESIGN.md 4/C03'),
     'C04': ('E1', 'bounded-exhaustive enumeration + byte-level inspection of serialized index and tokens',
             'All partitions of N<=6 (9) x 2 content variants (distinct ids / one id under every keyword): substring absence of every keyword '
-            'and identifier, pairwise-distinct ciphertext entries inside one index, disjoint entries across two setups of the same (K, DB) by one scheme object, incl. setups of 16..256 postings.',
+            'and identifier, pairwise-distinct ciphertext entries inside one index, disjoint entries across two setups of the same (K, DB) by one scheme object and a third by a brand-new object, incl. setups of 16..256 postings.',
             'Decided for DRBG values only; ciphertext entries located by position per scheme.', 'DESIGN.md 4/C04'),
     'C05': ('E1', 'exhaustive enumeration of all list-length profiles, grouped by public size parameter, generic shape walk',
             'ALL partitions of every N<=12 (16) per scheme/configuration point, two content assignments each, grouped by pi_S: the generic '
@@ -39,7 +39,7 @@ CHECKS = {
             'Chance coincidence <= 1/12! per array case.', 'DESIGN.md 4/C06'),
     'C07': ('E2', 'explicit-state search over search histories (BFS on canonical state + all sequences to depth k, no dedup)',
             'Per scheme x 2 configurations x 3 databases: BFS over (EDB bytes, token bytes, config fingerprint) reaches a fixpoint with one '
-            'state; all 5^k search sequences k<=4 (6) executed without dedup against answers computed by a scheme object that never searched anything else; inputs (DB, cfg dict, key bytes, DEFAULT_CONFIG) compared with deep copies.',
+            'state; all 5^k search sequences k<=4 (6) executed without dedup against answers computed by a scheme object that never searched anything else, with a second index of another database under the same key searched inside the histories; inputs (DB, cfg dict, key bytes, DEFAULT_CONFIG) compared with deep copies.',
             'Hidden state outside EDB/token/scheme objects (e.g. module globals) would only be seen through changed answers.', 'DESIGN.md 4/C07'),
     'C08': ('E1', 'bounded-exhaustive enumeration of configuration dictionaries (single + pairwise departures, deletions, names)',
             'Every single and pairwise departure over the full value domain of every field, every primitive name, every single-field deletion, '
@@ -50,11 +50,11 @@ CHECKS = {
             'keyword and an absent keyword searched twice; delivered bytes, hex/int/raw/utf8 renderings compared with the JSON database; plus two interleaved services per scheme, patterned keys, all 27 cleanup-timer firings between the networked steps, an early-loaded second client object.',
             'One client at a time, hence no scheduling choices; in-memory transport (loopback-TCP replays: mc/loopback.py).', 'DESIGN.md 4/C09'),
     'C10': ('E2', 'explicit-state BFS to fixpoint + all histories to depth k over the real connection handler on the virtual network, 3-state reference model',
-            'Alphabet of 12 protocol events (two configs, two indexes, search, reconnect before/after the cleanup delay, foreign sid, unknown type, three malformed messages) '
+            'Alphabet of 14 protocol events (two configs, two indexes, search, reconnect before/after the cleanup delay, foreign sid, missing sid, unknown type, three malformed messages, a configuration that cannot be stored) '
             'applied to every reachable canonical state (model + files + active Service snapshot + registry + timers); all histories of length <= 4 (5) without dedup.',
             'One connection at a time; canonical state abstracts the number of stale cleanup timers to 0/1/several.', 'DESIGN.md 4/C10'),
     'C11': ('E2', 'explicit-state BFS to fixpoint + all histories to depth k over the real client Service (fresh object per command) against a live server, 5-flag reference model',
-            'Alphabet of 8 client operations incl. an uninstantiable configuration and create-again; every reachable flag set x every operation; all histories of '
+            'Alphabet of 9 client operations incl. two uninstantiable configurations and create-again; every reachable flag set x every operation; all histories of '
             'length <= 5 (6); refusal leaves files byte-identical; persisted flags; key bytes write-once; searches after upload; the same through frontend/client/commands.py (10 commands, one process).',
             'PiBas (thorough: + CT14); operations before any create use a well-formed unknown sid as the CLI would.', 'DESIGN.md 4/C11'),
     'C12': ('E3', 'stateless exploration of all delivery/timer schedules (deviation-bounded for 3 connections) of the real server under scripted raw connections',
@@ -62,7 +62,7 @@ CHECKS = {
             'deviations; oracles O1-O5 (serialisation at the instant of each server write, monotone durable state, single acknowledgement, control notice, no stuck request).',
             'Timer rule (only <= 2 s timers are schedulable), per-connection FIFO, client-bound frames eager; 3 connections only deviation-bounded.', 'DESIGN.md 4/C12'),
     'C13': ('E4', 'exhaustive crash-point enumeration (kill one component before/after every file-system mutation) on the virtual network with a crash file system',
-            'Every mutation inside the persisting handlers named by the property x {before, after}, for a small and a multi-chunk PiBas workflow '
+            'Every mutation inside the persisting handlers named by the property x {before, after}, for a small and a multi-chunk PiBas workflow and the small one driven through frontend/client/commands.py with the service addressed by name '
             '(thorough: + Pi2Lev, DP17): survivor runs on, dead component restarted on the same directory, probe handshake, client reload, retry rule, rest of the workflow, final searches.',
             'Crash model of the property (no write reordering, no torn 8 KiB chunk); SIGKILL replays of the interposer: mc/loopback.py.', 'DESIGN.md 4/C13'),
     'C14': ('E1', 'exhaustive enumeration of message lengths x key sizes vs independent AES-CBC/PKCS7 computation',
@@ -74,7 +74,7 @@ CHECKS = {
             '3 keys per width; wide widths use 20 DRBG inputs.', 'DESIGN.md 4/C15'),
     'C16': ('E1', 'bounded-exhaustive enumeration vs independent RFC 5246 P_hash and counter-mode references',
             'quick: boundary grid of key/message/output lengths per digest; thorough: the full 81x201x200 box per digest; TLS 1.2 vector anchors '
-            'reference and implementation; 2000-pair distinctness; contracts.',
+            'reference and implementation; 2000-pair distinctness; contracts; every call history of length <= 4 over valid/refused calls on one object.',
             'hashlib/hmac are the trusted base.', 'DESIGN.md 4/C16'),
     'C17': ('E1', 'bounded-exhaustive enumeration of sizes/capacities/lengths/compositions',
             'Block partition/parse round trips over (identifier size, capacity, list length, block size) grids (thorough: all 40x70 x dense '
